@@ -35,10 +35,17 @@ type Line struct {
 	Err   string `json:"err"`
 }
 
-// keys 1..6 in the byte order of their length-prefixed encoding: a/1 a/2 a/3 b/1 b/2 ab/1
-var segs = [][2]string{{"a", "1"}, {"a", "2"}, {"a", "3"}, {"b", "1"}, {"b", "2"}, {"ab", "1"}}
+// keys 1..7 in the byte order of their length-prefixed encoding: a/1 a/1/x a/2 a/3 b/1 b/2 ab/1
+// (a/1/x extends a/1: one user key is a byte prefix of another)
+var segs = [][]string{{"a", "1"}, {"a", "1", "x"}, {"a", "2"}, {"a", "3"}, {"b", "1"}, {"b", "2"}, {"ab", "1"}}
 
-func key(i int) []byte { return lib.JoinLenPrefix([]byte(segs[i-1][0]), []byte(segs[i-1][1])) }
+func key(i int) []byte {
+	var parts [][]byte
+	for _, x := range segs[i-1] {
+		parts = append(parts, []byte(x))
+	}
+	return lib.JoinLenPrefix(parts...)
+}
 func keyIndex(k []byte) int {
 	for i := range segs {
 		if string(key(i+1)) == string(k) {
@@ -110,7 +117,7 @@ func sequence(rng *rand.Rand, ops int, disk bool, enc *json.Encoder) error {
 	prefixes := []string{"a", "b", "ab"}
 	for i := 0; i < ops; i++ {
 		top := stack[len(stack)-1]
-		k := 1 + rng.Intn(6)
+		k := 1 + rng.Intn(len(segs))
 		switch r := rng.Intn(100); {
 		case r < 22:
 			v := vals[rng.Intn(3)]
